@@ -191,7 +191,30 @@ def probe_once():
     xpmrun.run(t.__xpm__.job.path / "params.json")
     n = sum(1 for k, _, _ in S.LOG if k == "exec")
     del S.LOG[:]
-    return dict(executions=n, once=(n == 1))
+    out = dict(executions=n, once=(n == 1))
+    # one ObjectStore, a pre-task attached to two configurations instantiated one after the other: executed once
+    # for the store (fixes/C13-3.diff) or once per call?
+    q, a, b = S.P(v=3), S.N(v=4), S.N(v=5)
+    a.add_pretasks(q)
+    b.add_pretasks(q)
+    store = ObjectStore()
+    a.instance(objects=store)
+    b.instance(objects=store)
+    n = sum(1 for k, _, _ in S.LOG if k == "exec")
+    del S.LOG[:]
+    out["store_executions"] = n
+    out["store_once"] = (n == 1)
+    # an ObjectStore is keyed by id(config): configurations created and dropped one after the other
+    store = ObjectStore()
+    wrong = None
+    for i in range(300):
+        o = S.M(v=i + 1).instance(objects=store)
+        if o.v != i + 1:
+            wrong = dict(iteration=i, asked=i + 1, got=o.v)
+            break
+    del S.LOG[:]
+    out["id_reuse"] = wrong
+    return out
 
 
 def main():
